@@ -82,7 +82,7 @@ fn run_mode(ctx: &mut Ctx, mode: Mode) {
                     let prog = match sierra_cache.iter().find(|(c, _)| c.same_frontend(cfg)) {
                         Some((_, p)) => p.clone(),
                         None => {
-                            let r = match crate::core::guarded(|| dbs.compile(cfg, &snip.code)) {
+                            let r = match crate::core::guarded(|| dbs.compile_snip(cfg, snip)) {
                                 Ok(r) => r,
                                 Err((loc, msg)) => {
                                     dbs.forget(cfg);
